@@ -84,7 +84,10 @@ class PbnParser(Parser):
             # neither ';' nor '{' appear
             self.tag_pair_buffer.append(string)
 
-    TAG_PATTERN = r'\[[ ]?([A-Z][a-zA-Z]+) "([^"]*)"[ ]?\]'
+    # White space (incl. line ends) may separate the tokens of a tag pair; the
+    # characters of the value itself are kept as they are.
+    TAG_PATTERN = (r'\[[ \t\r\n]*([A-Z][a-zA-Z]+)[ \t\r\n]+'
+                   r'"([^"]*)"[ \t\r\n]*\]')
     REPLACE_PATTERN = r'[ \t\r\n]+'
 
     # TODO: This method only parses tag pairs.
@@ -95,7 +98,6 @@ class PbnParser(Parser):
         :return: Dict converted from tag pairs.
         """
         string = ''.join(self.tag_pair_buffer)
-        string = re.sub(self.REPLACE_PATTERN, ' ', string)
         tag_pairs = re.findall(self.TAG_PATTERN, string, )
 
         game_mem = dict()
